@@ -54,9 +54,29 @@ def flatten(x, out):
         out.append(x)
 
 
+_REUSE = [0, None]
+
+
 def real(data, text, mode):
+    if _REUSE[1] is None:
+        from vf.core.yp import YAMLPath
+        _REUSE[1] = YAMLPath("a.b")
+        _ = (len(_REUSE[1]), list(_REUSE[1].unescaped))
+    return _real(data, text, mode)
+
+
+def _real(data, text, mode):
     """('OK', nodes, rawcount) | ('UNMATCHED',) | ('YPE', cls) | ('CRASH', cls)"""
     p = Processor(LOG, data)
+    # every 7th query hands over a path OBJECT that has been used for an earlier query and was then re-pointed at
+    # this text: the answer must be the one for the text it holds now
+    _REUSE[0] += 1
+    if _REUSE[0] % 7 == 0:
+        try:
+            _REUSE[1].original = text
+            text = _REUSE[1]
+        except Exception:
+            pass
     try:
         if mode == "exists":
             return ("EXISTS", p.exists(text))
